@@ -8,46 +8,8 @@ func init() {
 }
 
 var assumedBounds = map[string]string{
-	"BOUNDS.SLC|codecs.(*AV1Depacketizer).Unmarshal|obuBuffer[obuHeader.Size():]":    `Size() is 2 only when ExtensionHeader != nil, and ParseOBUHeader sets that field only after checking len(data) >= 2 (obu.go: the data[1] read there is a discharged obligation); the path-merging cap loses the correlation between the field's nil-ness and len(obuBuffer)`,
-	"BOUNDS.SLC|codecs.(*AV1Depacketizer).Unmarshal|obuBuffer[obuHeader.Size():] #2": `Size() is 2 only when ExtensionHeader != nil, and ParseOBUHeader sets that field only after checking len(data) >= 2 (obu.go: the data[1] read there is a discharged obligation); the path-merging cap loses the correlation between the field's nil-ness and len(obuBuffer)`,
 	"BOUNDS.CTR|rtp.(*Header).Unmarshal|success (legacy arm): 0 <= n <= len(buf): return n, nil":                                    `the legacy arm advances n by len(h.Extensions[0].payload), which is the slice buf[n:extensionEnd] appended two statements earlier (extensionEnd <= len(buf) is checked): the reload of an element just appended to a slice is not tracked`,
 	"BOUNDS.CTR|rtp.(*Header).Unmarshal|ext-exact (legacy arm): header length = end of the extension block: return n, nil":          `same as above: n + len(buf[n:extensionEnd]) = extensionEnd; the appended element is not tracked through the slice`,
-	"BOUNDS.IDX|rtp.(*Packet).MarshalTo|buf[n+m+int(p.PaddingSize-1)]":                                                              `n+len(Payload)+PaddingSize <= len(buf) by the guard above; m = copy(...) = len(Payload); PaddingSize >= 1 when Padding by the first guard (the two loads of p.Header.Padding are separated by the expanded Header.MarshalTo, whose summary drops the equality)`,
-	"BOUNDS.IDX|rtp.(Header).MarshalTo|buf[n]":                                                                                      `write cursor n stays below size = MarshalSize(): guaranteed by the size guard at the top and by the agreement of MarshalSize and MarshalTo per profile arm (rule SIBLING.size in C04); a sum over the extension list is outside the linear domain`,
-	"BOUNDS.IDX|rtp.(Header).MarshalTo|buf[n] #2":                                                                                   `write cursor n stays below size = MarshalSize(): guaranteed by the size guard at the top and by the agreement of MarshalSize and MarshalTo per profile arm (rule SIBLING.size in C04); a sum over the extension list is outside the linear domain`,
-	"BOUNDS.IDX|rtp.(Header).MarshalTo|buf[n] #3":                                                                                   `write cursor n stays below size = MarshalSize(): guaranteed by the size guard at the top and by the agreement of MarshalSize and MarshalTo per profile arm (rule SIBLING.size in C04); a sum over the extension list is outside the linear domain`,
-	"BOUNDS.IDX|rtp.(Header).MarshalTo|buf[n] #4":                                                                                   `write cursor n stays below size = MarshalSize(): guaranteed by the size guard at the top and by the agreement of MarshalSize and MarshalTo per profile arm (rule SIBLING.size in C04); a sum over the extension list is outside the linear domain`,
-	"BOUNDS.IDX|rtp.(VLA).Marshal|payload[offset+4]":                                                                                `payload has length ctx.requiredLen, which analyzeVLAForMarshaling computes as the sum of exactly the byte counts written here (1 or 3, one #tl byte per 4 layers, the LEB128 sizes, 5 per layer): a sum invariant between two traversals of the same structure, outside the linear domain; protected by rule SIBLING.vla`,
-	"BOUNDS.IDX|rtp.(VLA).Marshal|payload[offset+streamID/2]":                                                                       `payload has length ctx.requiredLen, which analyzeVLAForMarshaling computes as the sum of exactly the byte counts written here (1 or 3, one #tl byte per 4 layers, the LEB128 sizes, 5 per layer): a sum invariant between two traversals of the same structure, outside the linear domain; protected by rule SIBLING.vla`,
-	"BOUNDS.IDX|rtp.(VLA).Marshal|payload[offset+streamID/2] #2":                                                                    `payload has length ctx.requiredLen, which analyzeVLAForMarshaling computes as the sum of exactly the byte counts written here (1 or 3, one #tl byte per 4 layers, the LEB128 sizes, 5 per layer): a sum invariant between two traversals of the same structure, outside the linear domain; protected by rule SIBLING.vla`,
-	"BOUNDS.IDX|rtp.(VLA).Marshal|payload[offset+streamID/2] #3":                                                                    `payload has length ctx.requiredLen, which analyzeVLAForMarshaling computes as the sum of exactly the byte counts written here (1 or 3, one #tl byte per 4 layers, the LEB128 sizes, 5 per layer): a sum invariant between two traversals of the same structure, outside the linear domain; protected by rule SIBLING.vla`,
-	"BOUNDS.IDX|rtp.(VLA).Marshal|payload[offset+streamID/2] #4":                                                                    `payload has length ctx.requiredLen, which analyzeVLAForMarshaling computes as the sum of exactly the byte counts written here (1 or 3, one #tl byte per 4 layers, the LEB128 sizes, 5 per layer): a sum invariant between two traversals of the same structure, outside the linear domain; protected by rule SIBLING.vla`,
-	"BOUNDS.IDX|rtp.(VLA).Marshal|payload[offset]":                                                                                  `payload has length ctx.requiredLen, which analyzeVLAForMarshaling computes as the sum of exactly the byte counts written here (1 or 3, one #tl byte per 4 layers, the LEB128 sizes, 5 per layer): a sum invariant between two traversals of the same structure, outside the linear domain; protected by rule SIBLING.vla`,
-	"BOUNDS.IDX|rtp.(VLA).Marshal|payload[offset] #2":                                                                               `payload has length ctx.requiredLen, which analyzeVLAForMarshaling computes as the sum of exactly the byte counts written here (1 or 3, one #tl byte per 4 layers, the LEB128 sizes, 5 per layer): a sum invariant between two traversals of the same structure, outside the linear domain; protected by rule SIBLING.vla`,
-	"BOUNDS.IDX|rtp.(VLA).Marshal|payload[offset] #3":                                                                               `payload has length ctx.requiredLen, which analyzeVLAForMarshaling computes as the sum of exactly the byte counts written here (1 or 3, one #tl byte per 4 layers, the LEB128 sizes, 5 per layer): a sum invariant between two traversals of the same structure, outside the linear domain; protected by rule SIBLING.vla`,
-	"BOUNDS.MK|codecs.(*AV1Depacketizer).Unmarshal|make([]byte, len(d.buffer)+lengthField)":                                         `lengthField = int(LEB128 value) is non-negative because decodeLEB128 folds at most 8x7 bits (< 2^56; re-checked for 32-bit uint: 4x7 bits); offset starts at 1 and only grows by n in [1,len] (ReadLeb128 returns i+1) and by lengthField; the guard offset+lengthField <= len(payload) precedes every slice`,
-	"BOUNDS.MK|codecs.(*AV1Payloader).Payload|make([]byte, obuSize+obuHeader.Size())":                                               `obuSize = int(LEB128 value) is non-negative because decodeLEB128 folds at most 8x7 bits (< 2^56), and the guard obuSize <= len(payload)-offset precedes the slice; offset only grows by Size() in [1,2], by n in [1,len] (ReadLeb128) and by obuSize`,
-	"BOUNDS.MK|rtp.(Packet).Marshal|make([]byte, p.MarshalSize())":                                                                  `MarshalSize() >= 12 and the count returned by MarshalTo equals it (rule SIBLING.size)`,
-	"BOUNDS.MK|rtp.(VLA).Marshal|make([]byte, ctx.requiredLen)":                                                                     `payload has length ctx.requiredLen, which analyzeVLAForMarshaling computes as the sum of exactly the byte counts written here (1 or 3, one #tl byte per 4 layers, the LEB128 sizes, 5 per layer): a sum invariant between two traversals of the same structure, outside the linear domain; protected by rule SIBLING.vla`,
 	"BOUNDS.PRE|rtp.(VLA).Marshal|binary.bigEndian).PutUint16: binary.BigEndian.PutUint16(payload[offset+0:], uint16(sl.Width-1))":  `payload has length ctx.requiredLen, which analyzeVLAForMarshaling computes as the sum of exactly the byte counts written here (1 or 3, one #tl byte per 4 layers, the LEB128 sizes, 5 per layer): a sum invariant between two traversals of the same structure, outside the linear domain; protected by rule SIBLING.vla`,
 	"BOUNDS.PRE|rtp.(VLA).Marshal|binary.bigEndian).PutUint16: binary.BigEndian.PutUint16(payload[offset+2:], uint16(sl.Height-1))": `payload has length ctx.requiredLen, which analyzeVLAForMarshaling computes as the sum of exactly the byte counts written here (1 or 3, one #tl byte per 4 layers, the LEB128 sizes, 5 per layer): a sum invariant between two traversals of the same structure, outside the linear domain; protected by rule SIBLING.vla`,
-	"BOUNDS.SLC|codecs.(*AV1Depacketizer).Unmarshal|obuBuffer[len(d.buffer):]":                                                      `lengthField = int(LEB128 value) is non-negative because decodeLEB128 folds at most 8x7 bits (< 2^56; re-checked for 32-bit uint: 4x7 bits); offset starts at 1 and only grows by n in [1,len] (ReadLeb128 returns i+1) and by lengthField; the guard offset+lengthField <= len(payload) precedes every slice`,
-	"BOUNDS.SLC|codecs.(*AV1Depacketizer).Unmarshal|payload[offset : offset+lengthField]":                                           `lengthField = int(LEB128 value) is non-negative because decodeLEB128 folds at most 8x7 bits (< 2^56; re-checked for 32-bit uint: 4x7 bits); offset starts at 1 and only grows by n in [1,len] (ReadLeb128 returns i+1) and by lengthField; the guard offset+lengthField <= len(payload) precedes every slice`,
-	"BOUNDS.SLC|codecs.(*AV1Depacketizer).Unmarshal|payload[offset : offset+lengthField] #2":                                        `lengthField = int(LEB128 value) is non-negative because decodeLEB128 folds at most 8x7 bits (< 2^56; re-checked for 32-bit uint: 4x7 bits); offset starts at 1 and only grows by n in [1,len] (ReadLeb128 returns i+1) and by lengthField; the guard offset+lengthField <= len(payload) precedes every slice`,
-	"BOUNDS.SLC|codecs.(*AV1Depacketizer).Unmarshal|payload[offset:]":                                                               `lengthField = int(LEB128 value) is non-negative because decodeLEB128 folds at most 8x7 bits (< 2^56; re-checked for 32-bit uint: 4x7 bits); offset starts at 1 and only grows by n in [1,len] (ReadLeb128 returns i+1) and by lengthField; the guard offset+lengthField <= len(payload) precedes every slice`,
-	"BOUNDS.SLC|codecs.(*AV1Payloader).Payload|currentOBUPayload[obuHeader.Size():]":                                                `obuSize = int(LEB128 value) is non-negative because decodeLEB128 folds at most 8x7 bits (< 2^56), and the guard obuSize <= len(payload)-offset precedes the slice; offset only grows by Size() in [1,2], by n in [1,len] (ReadLeb128) and by obuSize`,
-	"BOUNDS.SLC|codecs.(*AV1Payloader).Payload|payload[offset : offset+obuSize]":                                                    `obuSize = int(LEB128 value) is non-negative because decodeLEB128 folds at most 8x7 bits (< 2^56), and the guard obuSize <= len(payload)-offset precedes the slice; offset only grows by Size() in [1,2], by n in [1,len] (ReadLeb128) and by obuSize`,
-	"BOUNDS.SLC|codecs.(*AV1Payloader).Payload|payload[offset:]":                                                                    `obuSize = int(LEB128 value) is non-negative because decodeLEB128 folds at most 8x7 bits (< 2^56), and the guard obuSize <= len(payload)-offset precedes the slice; offset only grows by Size() in [1,2], by n in [1,len] (ReadLeb128) and by obuSize`,
-	"BOUNDS.SLC|codecs.(*AV1Payloader).Payload|payload[offset:] #2":                                                                 `obuSize = int(LEB128 value) is non-negative because decodeLEB128 folds at most 8x7 bits (< 2^56), and the guard obuSize <= len(payload)-offset precedes the slice; offset only grows by Size() in [1,2], by n in [1,len] (ReadLeb128) and by obuSize`,
-	"BOUNDS.SLC|codecs.(*VP9Packet).Unmarshal|packet[pos:]":                                                                         `every parse helper returns pos only after the check len(packet) <= pos -> error followed by pos++, so pos <= len(packet); the relation is lost when the helpers' success returns are summarised`,
-	"BOUNDS.SLC|rtp.(Header).MarshalTo|buf[extHeaderPos+2 : extHeaderPos+4]":                                                        `write cursor n stays below size = MarshalSize(): guaranteed by the size guard at the top and by the agreement of MarshalSize and MarshalTo per profile arm (rule SIBLING.size in C04); a sum over the extension list is outside the linear domain`,
-	"BOUNDS.SLC|rtp.(Header).MarshalTo|buf[n+0 : n+2]":                                                                              `write cursor n stays below size = MarshalSize(): guaranteed by the size guard at the top and by the agreement of MarshalSize and MarshalTo per profile arm (rule SIBLING.size in C04); a sum over the extension list is outside the linear domain`,
-	"BOUNDS.SLC|rtp.(Header).MarshalTo|buf[n:]":                                                                                     `write cursor n stays below size = MarshalSize(): guaranteed by the size guard at the top and by the agreement of MarshalSize and MarshalTo per profile arm (rule SIBLING.size in C04); a sum over the extension list is outside the linear domain`,
-	"BOUNDS.SLC|rtp.(Header).MarshalTo|buf[n:] #2":                                                                                  `write cursor n stays below size = MarshalSize(): guaranteed by the size guard at the top and by the agreement of MarshalSize and MarshalTo per profile arm (rule SIBLING.size in C04); a sum over the extension list is outside the linear domain`,
-	"BOUNDS.SLC|rtp.(Header).MarshalTo|buf[n:] #3":                                                                                  `write cursor n stays below size = MarshalSize(): guaranteed by the size guard at the top and by the agreement of MarshalSize and MarshalTo per profile arm (rule SIBLING.size in C04); a sum over the extension list is outside the linear domain`,
-	"BOUNDS.SLC|rtp.(Header).Marshal|buf[:n]":                                                                                       `n returned by MarshalTo equals MarshalSize() = len(buf) (rule SIBLING.size)`,
-	"BOUNDS.SLC|rtp.(Packet).Marshal|buf[:n]":                                                                                       `MarshalSize() >= 12 and the count returned by MarshalTo equals it (rule SIBLING.size)`,
-	"BOUNDS.SLC|rtp.(VLA).Marshal|payload[offset+0:]":                                                                               `payload has length ctx.requiredLen, which analyzeVLAForMarshaling computes as the sum of exactly the byte counts written here (1 or 3, one #tl byte per 4 layers, the LEB128 sizes, 5 per layer): a sum invariant between two traversals of the same structure, outside the linear domain; protected by rule SIBLING.vla`,
-	"BOUNDS.SLC|rtp.(VLA).Marshal|payload[offset+2:]":                                                                               `payload has length ctx.requiredLen, which analyzeVLAForMarshaling computes as the sum of exactly the byte counts written here (1 or 3, one #tl byte per 4 layers, the LEB128 sizes, 5 per layer): a sum invariant between two traversals of the same structure, outside the linear domain; protected by rule SIBLING.vla`,
-	"BOUNDS.SLC|rtp.(VLA).Marshal|payload[offset:]":                                                                                 `payload has length ctx.requiredLen, which analyzeVLAForMarshaling computes as the sum of exactly the byte counts written here (1 or 3, one #tl byte per 4 layers, the LEB128 sizes, 5 per layer): a sum invariant between two traversals of the same structure, outside the linear domain; protected by rule SIBLING.vla`,
 }
